@@ -16,12 +16,13 @@ import (
 func TestMain(m *testing.M) { hx.Main(m, "C11") }
 
 type cfg struct {
-	T   float64
-	P   uint32
-	CF  uint32
-	I   uint32 // StatIntervalInMs: 0 (the default 1000 ms) or a shorter interval; the threshold is per interval
-	Thr bool   // control behaviour throttling (no queueing) instead of reject: the warm-up threshold paces the requests
-	Pre int    // family of the rule the resource carried before (0 = none): the warm-up rule replaces it by a reload
+	T     float64
+	P     uint32
+	CF    uint32
+	I     uint32 // StatIntervalInMs: 0 (the default 1000 ms) or a shorter interval; the threshold is per interval
+	Front bool   // an inert direct/reject rule is listed before the warm-up rule
+	Thr   bool   // control behaviour throttling (no queueing) instead of reject: the warm-up threshold paces the requests
+	Pre   int    // family of the rule the resource carried before (0 = none): the warm-up rule replaces it by a reload
 }
 
 func (c cfg) iv() int {
@@ -69,14 +70,18 @@ func loadWarm(t *rapid.T, c cfg) {
 			t.Fatalf("predecessor rule %+v not accepted: %v", p, err)
 		}
 	}
+	front := []*flow.Rule{}
+	if c.Front {
+		front = append(front, &flow.Rule{ID: "front", Resource: "w", Threshold: 1e9}) // never blocks; reads the resource's shared window
+	}
 	r := &flow.Rule{Resource: "w", Threshold: c.T, TokenCalculateStrategy: flow.WarmUp, ControlBehavior: flow.Reject, WarmUpPeriodSec: c.P, WarmUpColdFactor: c.CF, StatIntervalInMs: c.I}
 	if c.Thr {
 		r.ControlBehavior, r.MaxQueueingTimeMs = flow.Throttling, 0
 	}
-	if _, err := flow.LoadRules([]*flow.Rule{r}); err != nil {
+	if _, err := flow.LoadRules(append(front, r)); err != nil {
 		t.Fatalf("LoadRules: %v", err)
 	}
-	if len(flow.GetRulesOfResource("w")) != 1 {
+	if len(flow.GetRulesOfResource("w")) != 1+len(front) {
 		t.Fatalf("valid warm-up rule %+v not accepted", c)
 	}
 }
@@ -113,7 +118,7 @@ func drawCfg(t *rapid.T) cfg {
 	}
 	return cfg{T: T, P: uint32(rapid.IntRange(1, maxP).Draw(t, "P")), CF: uint32(rapid.SampledFrom([]int{0, 2, 3, 5, 10}).Draw(t, "CF")),
 		I:   uint32(rapid.SampledFrom([]int{0, 0, 0, 0, 1000, 500, 250, 2000}).Draw(t, "statIntervalMs")),
-		Pre: rapid.SampledFrom([]int{0, 0, 0, 1, 2, 3, 4, 5, 6}).Draw(t, "predecessor")}
+		Pre: rapid.SampledFrom([]int{0, 0, 0, 1, 2, 3, 4, 5, 6}).Draw(t, "predecessor"), Front: rapid.IntRange(0, 3).Draw(t, "inertRuleInFront") == 0}
 }
 
 func TestWarmUpEnvelope(t *testing.T) {
